@@ -63,6 +63,19 @@ def run(project: Project, rep, tier: str):
                         construct=f"{f2.qualname}: {_ast.unparse(h['node'])[:100]}")
     rep.discharged("SW-DTYPE", fi, fi.node, f"{n_fn} function(s) of {mod} inspected: no floating-point store into an array "
                                             f"whose dtype is inherited from the caller's data")
+    # the coordinates themselves are never rounded to single precision (rules/narrow_rule.py): the direction table is float32
+    # by construction, the diagrams are not — invariance under diagonal translation is exact only on the numbers given
+    from . import narrow_rule
+    hits, st_ = narrow_rule.analyse(project, mod, SW)
+    for h in hits:
+        rep.refuted("SW-DTYPE", h["fi"], h["node"],
+                    h["why"] + ": every coordinate is rounded to a relative 6e-8, so translating both diagrams along the diagonal "
+                               "by t changes the result by an error that grows with |t| (and the result is float32)",
+                    construct=f"{h['fi'].qualname}: {_ast.unparse(h['node'])[:100]}")
+    if not hits:
+        rep.discharged("SW-DTYPE", fi, fi.node, f"{st_.get('casts', 0)} cast(s) in {st_.get('functions', 0)} function(s): none "
+                                                f"narrows data reached from the diagrams (single-precision tables: "
+                                                f"{', '.join(st_.get('single_arrays', [])[:4]) or 'none'})")
     ps = fi.params
     I = Interp(project, Config(nonempty={("rows", "P"), ("rows", "Q")}, finite_inputs={"P", "Q"}))
     args = {ps[0]: dgm_input("P"), ps[1]: dgm_input("Q")}
